@@ -429,6 +429,30 @@ def gen_schema(r, name, feat):
 def add_inverse(r, sch, ents):
     """INVERSE attributes over existing entity-typed (or aggregate-of-entity) attributes."""
     n = 0
+    # an entity that inherits from the same supertype along two paths (diamond): put an aggregate inverse on that supertype,
+    # inverting an attribute made for the purpose, so that an instance of the bottom entity has real referrers through it
+    byname = {e["name"]: e for e in ents}
+
+    def paths(e, top):
+        if e == top:
+            return 1
+        return sum(paths(s_, top) for s_ in byname[e]["supers"])
+    for e in ents:
+        tops = [t["name"] for t in ents if t["name"] != e["name"] and paths(e["name"], t["name"]) >= 2]
+        if tops and r.random() < 0.8:
+            top = byname[r.choice(tops)]
+            holder = r.choice([x for x in ents if not x.get("redecl_only")])
+            an = "dia_%s" % holder["name"][:3]
+            if any(a["name"] == an for a in holder["attrs"]):
+                break
+            if r.random() < 0.5:
+                t = {"k": "agg", "agg": "LIST", "lo": 0, "hi": None, "elem": {"k": "ent", "name": top["name"]}}
+                holder["attrs"].append({"name": an, "type": t, "optional": False})
+            else:
+                holder["attrs"].append({"name": an, "type": {"k": "ent", "name": top["name"]}, "optional": True})
+            top["inverse"].append({"name": "inv_%s_d" % an, "ent": holder["name"], "attr": an, "agg": r.choice(["SET", "BAG"]), "lo": 0, "hi": None})
+            n += 1
+            break
     for e in ents:
         for a in e["attrs"]:
             t = a["type"]
